@@ -108,3 +108,13 @@ ASSUMPTIONS = [
     'K3 hand-built states: allocator alignment = max(1, slot alignments), slot alignment a power of two 1..128, size >= 1 - established by new_slot (h_stack_new_slot, h_stack_chain_*) from the values BaseCompiler::_new_stack / new_virt_reg produce',
     'K4: RALocalAllocator / BaseRAPass objects are raw storage with only the fields the decision functions read set; home register ids are none or < 32',
 ]
+
+# Sanity mutants (checks/C05/mutants/*.diff, applied to a scratch worktree with tools/mutrun.sh; every one is reported as VIOLATION):
+#   k1_union_lt       second skip loop of non_overlapping_union_of uses < for <=   -> h_spans_union_2_2_d2 (touching spans refused)
+#   k1_union_miss     first skip loop tests the span start instead of its end      -> h_spans_union_2_2_d2 (overlap accepted, union unsorted)
+#   k2_swap_dirty     RAAssignment::swap flips only one of the two dirty bits      -> h_assign_swap
+#   k2_reassign_stale reassign leaves the source entry of the phys->work map       -> h_assign_reassign (debug verify() obligation)
+#   k3_align_down     calculate_stack_frame aligns the offset down instead of up   -> h_stack_frame_k2 (slots overlap)
+#   k4_assign_mask    decide_on_assignment replaces the allocable mask             -> h_decide_assignment
+#   k4_spill_victim   decide_on_spill_for forgets to update the victim work id     -> h_decide_spill_anyfreq
+#   k4_regindex       build_indexes drops the third summand                        -> h_defs_regcount
